@@ -267,6 +267,23 @@ def check_predictor(res, case, p, entries, sub0, tag):
                                   f"{float(cs[0].phase(mx))!r} [{sub}]", case, dict(sub, x=x))
                     break
             res.hits["phasepol"] += 1
+            # the polynomial and reference phase handed out are the caller's: overwriting them must not reach the predictor
+            try:
+                if hasattr(pol, "coef") and pol.coef.flags.writeable:
+                    pol.coef[...] = 0
+                if isinstance(ref, np.ndarray) and ref.flags.writeable and ref.dtype.names:
+                    for nm_ in ref.dtype.names:
+                        np.asarray(ref[nm_])[...] = 0
+            except Exception:
+                pass
+    try:
+        iv = p.intervals
+        if isinstance(iv, np.ndarray) and iv.flags.writeable:
+            iv[...] = iv[...] * 0
+        elif isinstance(iv, list):
+            iv.clear()
+    except Exception:
+        pass
     for t, me in allpts[:: max(1, len(allpts) // 12)]:
         try:
             ph = p(t)
